@@ -219,6 +219,12 @@ def extract_function(inference_state, path, module_context, name, pos, until_pos
     if not is_expression and until_pos is None:
         # Without a range there are no statements that could be extracted.
         raise RefactoringError(message)
+    if not is_expression and len(nodes) == 1:
+        # The range ends in front of the newline of a single statement. The
+        # whole line is meant, like for ranges with multiple statements.
+        parent = nodes[0].parent
+        if parent.type == 'simple_stmt' and len(parent.children) == 2:
+            nodes = [parent]
     context = module_context.create_context(nodes[0])
     is_bound_method = context.is_bound_method()
     params, return_variables = list(_find_inputs_and_outputs(module_context, context, nodes))
